@@ -73,6 +73,8 @@ def must_fail(phrase, setting, enabled=None):
         return "phrase-too-long"
     if has_bad_chars(setting):
         return "bad-char"
+    if setting == b"":
+        return "empty-setting"          # dispatched to the DES entry, which needs two salt characters
     if classify(setting, enabled) is None:
         return "unknown-tag"
     if yes_unsupported(setting):
